@@ -113,7 +113,7 @@ def classify(case, msg):
     return None
 
 
-OPTIONS = gencc.Options(effects=12, many_params=8)
+OPTIONS = gencc.Options(effects=12, many_params=8, bare_literals=8)
 
 
 @st.composite
